@@ -2,7 +2,9 @@ use crate::{
     emulator::Emulator,
     error::{SnapshotLoadError, SnapshotSaveError},
     host::{DataRecorder, Host, LoadableAsset, SeekFrom, SeekableAsset},
-    zx::{joy::kempston, mouse::kempston::KempstonMouse, video::colors::ZXColor},
+    zx::{
+        joy::kempston, machine::ZXMachine, mouse::kempston::KempstonMouse, video::colors::ZXColor,
+    },
     Result,
 };
 
@@ -343,6 +345,14 @@ where
 
     let machine_id = header[6] as u32;
     if machine_id > ZXST_MID_128K {
+        return Err(SnapshotLoadError::MachineNotSupported.into());
+    }
+    // Snapshot can be applied only to the machine it was made for
+    let machine_matches = match emulator.settings.machine {
+        ZXMachine::Sinclair48K => machine_id < ZXST_MID_128K,
+        ZXMachine::Sinclair128K => machine_id == ZXST_MID_128K,
+    };
+    if !machine_matches {
         return Err(SnapshotLoadError::MachineNotSupported.into());
     }
 
